@@ -49,6 +49,14 @@ def body(env, prog, conn):
     env.nonblocking = False
 
     def construct():
+        if prog.get("unpickle"):
+            # the handle arrives pickled (how joblib / process pools hand a library to their workers); the
+            # library itself was created - with overwrite=True - by the parent before anything started
+            import pickle
+
+            c = pickle.loads(bytes.fromhex(prog["unpickle"]))
+            env.keep = c
+            return c
         kw = {}
         if prog.get("recreate"):
             # the library is created anew (under its write lock) with a header of another length
@@ -249,16 +257,29 @@ class Bench:
                 os.unlink(p)
             except FileNotFoundError:
                 pass
+        if getattr(self, "pre_create", False):
+            # the parent creates the (empty) library before the workers get their pickled handles
+            c = Collection(self.lib, UkvCollectionBackend, readonly=False, overwrite=True, bufsize=0)
+            atexit.unregister(c._backend.flush)
 
     def programs(self, spec):
         progs = []
         for wid, w in enumerate(spec):
             sp, cwd = self.spelled(wid, w["spelling"])
             ro = bool(w.get("ro"))
-            progs.append({"lib": str(self.lib), "spelled": sp, "cwd": cwd, "ro": ro, "buf": w["buf"], "sessions": w["sessions"], "sched_ctor": bool(w.get("sched_ctor")), "exits": bool(w.get("exits")), "recreate": w.get("recreate"), "cfg_route": (w["cfg_route"], str(self.root / "site_shared")) if w.get("cfg_route") else None})
+            progs.append({"lib": str(self.lib), "spelled": sp, "cwd": cwd, "ro": ro, "buf": w["buf"], "sessions": w["sessions"], "sched_ctor": bool(w.get("sched_ctor")), "exits": bool(w.get("exits")), "recreate": w.get("recreate"), "unpickle": self._blob() if w.get("unpickle") else None, "cfg_route": (w["cfg_route"], str(self.root / "site_shared")) if w.get("cfg_route") else None})
         if any(w.get("cfg_route") for w in spec):
             self.lockpath = self.root / "site_shared" / "lock" / self.lockpath.name
+        self.pre_create = any(w.get("unpickle") for w in spec)
         return progs
+
+    def _blob(self):
+        """a writable handle on the library, opened with overwrite=True by the parent, pickled"""
+        import pickle
+
+        c = Collection(self.lib, UkvCollectionBackend, readonly=False, overwrite=True, bufsize=0)
+        atexit.unregister(c._backend.flush)
+        return pickle.dumps(c).hex()
 
 
 def mk_sessions(wid, kinds, seed):
@@ -280,6 +301,8 @@ def _val(wid, si, j, seed):
 
 
 def fault_context(spec):
+    if any(w.get("unpickle") for w in spec):
+        return "handles-received-by-pickle"
     if any(w.get("recreate") for w in spec):
         return "library-recreated-by-another-process"
     if any(w.get("cfg_route") for w in spec):
@@ -308,7 +331,7 @@ def judge(bench: Bench, spec, x: schedx.Execution):
     dead, reset_pos, new_comment = set(), None, b""
     recreators = [w for w in range(bench.n) if spec[w].get("recreate")]
     if recreators:
-        cnt = {w: (-1 if spec[w].get("sched_ctor") else 0) for w in range(bench.n)}
+        cnt = {w: (-1 if spec[w].get("sched_ctor") and not spec[w].get("unpickle") else 0) for w in range(bench.n)}
         relpos = {}
         for pos, (ev, wid, mode) in enumerate(x_events(x)):
             if ev == "acq":
@@ -413,7 +436,7 @@ def judge(bench: Bench, spec, x: schedx.Execution):
     # (c) readers: complete records only, everything committed before they began
     visible = set()
     # a handle constructed under the scheduler takes (and releases) the write lock once before its sessions
-    sidx = {w: (-1 if spec[w].get("sched_ctor") else 0) for w in range(bench.n)}
+    sidx = {w: (-1 if spec[w].get("sched_ctor") and not spec[w].get("unpickle") else 0) for w in range(bench.n)}
     snap = {}
     for pos, (ev, wid, mode) in enumerate(x_events(x)):
         if ev == "acq":
@@ -626,6 +649,16 @@ def cfg_route_specs(ctx, spellings):
     return specs
 
 
+def unpickle_specs(ctx, nworkers):
+    """every worker receives its handle pickled by the parent (which created the library with overwrite=True)
+    and unpickles it under the scheduler - at any moment relative to the other workers' sessions"""
+    specs = []
+    menu = [("W",), ("W", "R"), ("R", "W"), ("W", "W")]
+    for combo in itertools.product(menu, repeat=nworkers):
+        specs.append([{"spelling": "abs", "buf": "dflt", "ro": False, "sched_ctor": True, "unpickle": True, "sessions": mk_sessions(w, ks, ctx.seed)} for w, ks in enumerate(combo)])
+    return specs
+
+
 def mixed_specs(ctx, spellings):
     """writing sessions that read an earlier record before they store new ones"""
     specs = []
@@ -809,7 +842,8 @@ def run(ctx):
         "path spelling and buffer size per process) is executed on real processes with the real fcntl lock; plus, for the fault family, "
         "one injected exception at every fault point (body, encoder, n-th file write, close, open, final flush that loses the buffered "
         "bytes, an item that can never be written) of a session, the faulted writes carrying zero-filled values; writing sessions that "
-        "read an earlier record before they store new ones; a construction family in which the handles are created under the scheduler; a lifecycle family with "
+        "read an earlier record before they store new ones; handles that arrive pickled from a parent that created the library with "
+        "overwrite=True and are unpickled under the scheduler; a construction family in which the handles are created under the scheduler; a lifecycle family with "
         "sessions that give up after a timeout and processes that exit normally (captured atexit hooks run under the scheduler) while "
         "others continue; a re-creation family in which another process creates the library anew (overwrite=True, header of another "
         "length) before, between or after the sessions of a long-lived handle; a configuration family in which the processes learn "
@@ -846,6 +880,7 @@ def run(ctx):
         ctx.pmap(part_plain, [(2, 1, c) for c in chunks(recreate_specs(ctx, list(sp_q)), nproc)], nproc=nproc)
         ctx.pmap(part_plain, [(2, 2, c) for c in chunks(cfg_route_specs(ctx, list(sp_q)), 4)], nproc=nproc)
         ctx.pmap(part_plain, [(2, 1, c) for c in chunks(mixed_specs(ctx, list(sp_q)), nproc)], nproc=nproc)
+        ctx.pmap(part_plain, [(2, 2, c) for c in chunks(unpickle_specs(ctx, 2), nproc)], nproc=nproc)
         model_family(ctx, 2, beh2, nproc)
         ctx.bound = {"processes": 2, "sessions_total": 4, "preemptions": bound, "fault_family_preemptions": 1, "faults_per_execution": 1, "path_spellings": list(sp_q) + ["rel+sym in the fault family"]}
     else:
@@ -862,6 +897,8 @@ def run(ctx):
         ctx.pmap(part_plain, [(2, 2, c) for c in chunks(recreate_specs(ctx, sp2[:2]), nproc)], nproc=nproc)
         ctx.pmap(part_plain, [(2, 3, c) for c in chunks(cfg_route_specs(ctx, sp2[:2]), 6)], nproc=nproc)
         ctx.pmap(part_plain, [(2, 2, c) for c in chunks(mixed_specs(ctx, sp2[:2]), nproc)], nproc=nproc)
+        ctx.pmap(part_plain, [(2, 3, c) for c in chunks(unpickle_specs(ctx, 2), nproc)], nproc=nproc)
+        ctx.pmap(part_plain, [(3, 2, c) for c in chunks(unpickle_specs(ctx, 3)[::3], nproc)], nproc=nproc)
         model_family(ctx, 2, beh2, nproc)
         model_family(ctx, 3, beh3, nproc)
         ctx.bound = {"processes": "2 (bound 3) and 3 (bound 2)", "sessions_total": "4 / 4", "fault_family_preemptions": 2, "faults_per_execution": 1, "path_spellings": sp2}
